@@ -90,11 +90,19 @@ Definition hist_rec (h : list N) (v : N) : list N := hist_add 32 h v 1.
 (* one slot swapped out of the histogram during a drain *)
 Definition swap_slot (h : list N) (i : nat) : list N * N := (upd h i (fun _ => 0), nth i h 0).
 
-(* what drain() makes of the swapped-out counts: non-empty buckets, midpoint as u32, count as u32 *)
-Definition bucket_of (ic : N * N) : N * N :=
-  (wrap32 (midpoint' (index_to_lower_bound (fst ic)) (index_to_upper_bound 32 (fst ic))), wrap32 (snd ic)).
+(* what drain() makes of the swapped-out counts: non-empty buckets, midpoint as u32; a count above u32::MAX
+   is reported as several buckets of the same value (repository commit "fix: metrics.rs bridge histogram
+   drain no longer truncates a bucket count to u32"; before it the count was cast with `as u32`) *)
+Fixpoint chunks (fuel : nat) (c : N) : list N :=
+  match fuel with
+  | O => []
+  | Datatypes.S f => if c =? 0 then [] else let x := N.min c u32_max in x :: chunks f (c - x)
+  end.
+Definition bucket_of (ic : N * N) : list (N * N) :=
+  let value := wrap32 (midpoint' (index_to_lower_bound (fst ic)) (index_to_upper_bound 32 (fst ic))) in
+  map (fun x => (value, x)) (chunks (Datatypes.S (N.to_nat (snd ic / u32_max))) (snd ic)).
 Definition drained_buckets (raw : list (N * N)) : list (N * N) :=
-  map bucket_of (filter (fun ic => 0 <? snd ic) raw).
+  flat_map bucket_of (filter (fun ic => 0 <? snd ic) raw).
 
 (* ---------------------------------------------------------------- unit.rs *)
 
